@@ -49,6 +49,29 @@ class Session:
             self.rep.inconc('UNSUPPORTED while validating the interpreter on repository fixtures: %s' % e)
             return False
         self.validated += ok
+        if bad and self.prop == 'C12':
+            # a mismatch on a repository fixture may be the property itself failing: does the NATIVE output vary between fresh processes?
+            for rel, why in bad:
+                path = os.path.join(REPO, rel)
+                name = os.path.basename(path)
+                files = {name: open(path).read()}
+                for f in sorted(os.listdir(os.path.dirname(path))):
+                    if f.endswith('.xsd') and f != name:
+                        files[f] = open(os.path.join(os.path.dirname(path), f)).read()
+                outs = set()
+                for _ in range(24):
+                    rc, nat, _log = H.native_generate(self.ctx, files, name)
+                    outs.add(nat)
+                    if len(outs) > 1:
+                        break
+                self.replays += 1
+                if len(outs) > 1:
+                    two = sorted(o or '' for o in outs)[:2]
+                    rdir = save_replay('C12', 'native_output_varies_' + re.sub(r'\W+', '_', name), dict(list(files.items()) + [
+                        ('finding.txt', 'the native binary produces different outputs for %s in fresh processes\n' % rel), ('output_A.rs', two[0]), ('output_B.rs', two[1])]))
+                    self.rep.violation('c12/hash-seed/native-output-varies', '%s: the native output differs between fresh processes on identical input' % rel, rdir)
+            if self.rep.viol:
+                return False
         if bad:
             self.rep.inconc('interpreter does not reproduce the native binary on repository fixtures: %r' % (bad,))
             return False
